@@ -667,11 +667,11 @@ class ExprMixin:
         if xt.is_string():
             hi = self.index_value(e["High"], st) if e.get("High") else sl.ln
             self.oblige(st, "safety", "slice@%s" % self.site(e), z3.And(lo >= 0, lo <= hi, hi <= sl.ln), e.get("ln"), "string slice bounds in range")
-            return SliceV(sl.rid, sl.off + lo, hi - lo, hi - lo, sl.elem, lv=sl.lv, isstr=True)
+            return SliceV(sl.rid, sl.off + lo, hi - lo, hi - lo, sl.elem, lv=sl.lv, isstr=True, snap=sl.snap)
         hi = self.index_value(e["High"], st) if e.get("High") else sl.ln
         mx = self.index_value(e["Max"], st) if e.get("Max") else sl.cap
         self.oblige(st, "safety", "slice@%s" % self.site(e), z3.And(lo >= 0, lo <= hi, hi <= mx, mx <= sl.cap), e.get("ln"), "slice bounds in range")
-        return SliceV(sl.rid, sl.off + lo, hi - lo, mx - lo, sl.elem, lv=sl.lv)
+        return SliceV(sl.rid, sl.off + lo, hi - lo, mx - lo, sl.elem, lv=sl.lv, snap=sl.snap)
 
     def site(self, e):
         """Stable site label: ordinal of this syntactic node among obligations of the same kind in the function
